@@ -215,6 +215,10 @@ def _scenarios(prop, tier, seed=0):
                    oracles=BASE + ('deadlock', 'quiescent_complete')))
         if not q: L.append(S('c07_p1_poll_detach', [T('A', ('future_desync', 0, {'fut': ('gate', 0), 'as': 'f'}), ('poll', 'f'), ('detach', 'f')), T('W', ('open_gate', 0))], pool_max=1, R=3, B=18,
                    oracles=BASE + ('deadlock', 'quiescent_complete')))
+        # the awaited future_desync from every queue state that has a pool thread (the result must arrive exactly once, after the operation, and
+        # the awaiting task must be woken)
+        L += state_matrix('C07', lambda st, k, P: BASE + ('deadlock', 'fut_results', 'quiescent_complete'), kinds=('fdes_await',), R=(2 if q else 3),
+                          want=lambda st, k: st in ('wfw', 'runpool', 'pending', 'stale_pool'))
     elif prop == 'C13':
         L.append(S('c13_p1_suspend_resume', [T('A', ('suspend', 0, {'as': 's'}), ('desync', 0), ('block_on', 's'), ('resume', 's', 'resume'))],
                    pool_max=1, R=2, B=24, oracles=BASE + ('deadlock', 'suspend', 'quiescent_complete')))
@@ -446,20 +450,24 @@ def state_matrix(prop, oracles_for, want=None, R=3, B=16, kinds=('desync', 'sync
     return L
 
 def rotate_orders(L, seed):
-    """VERIF_SEED > 0: generic scenarios (no explicit slot sequence or thread order) run with the thread order rotated by `seed`,
-    which covers a different set of schedules for the same R and B"""
-    if not seed: return L
+    """Opt-in (VERIF_ROTATE=1 together with VERIF_SEED = k > 0): generic scenarios run with the round-robin thread order rotated by k and ONE
+    MORE round, so that every schedule covered at seed 0 is still covered (R rounds in the original order embed into R+1 rotated rounds) and
+    further ones are added.  Without VERIF_ROTATE the seed does not change the set of schedules: the deciding step is the solver's verdict
+    over all schedules within the bounds, there is nothing to sample.  (The first version rotated on VERIF_SEED alone and kept R: R = 2
+    scenarios then had no completing schedule at all and came back INCONCLUSIVE -- seen in a `vp check` run with VERIF_SEED=1.)"""
+    import os
+    if not seed or os.environ.get('VERIF_ROTATE') != '1': return L
     for s_ in L:
         if s_.get('setup_info'):
             pre, names, R_ = s_['setup_info']; k = seed % len(names)
             if k:
-                s_['seq'] = pre + R_ * (names[k:] + names[:k]); s_['R'] = len(s_['seq'])
+                s_['seq'] = pre + (R_ + 1) * (names[k:] + names[:k]); s_['R'] = len(s_['seq'])
                 s_['bounds'] = dict(s_['bounds'], slot_sequence=' '.join(s_['seq']))
             continue
         if s_['seq'] is None and s_['order'] is None:
             sc_ = s_['scen']; n = len([t for t in sc_['threads'] if not t.get('final')]) + sc_.get('pool_slots', sc_['pool_max']); k = seed % n
             if k:
-                s_['order'] = [(j + k) % n for j in range(n)]; s_['bounds'] = dict(s_['bounds'], thread_order=s_['order'])
+                s_['order'] = [(j + k) % n for j in range(n)]; s_['R'] = s_['R'] + 1; s_['bounds'] = dict(s_['bounds'], thread_order=s_['order'], R=s_['R'])
     return L
 
 def bounds_text(prop, tier):
